@@ -421,6 +421,8 @@ def getitem(ip, o, k):
     c = ip.c
     if isinstance(o, Sym) and o.t.sort() == Val:
         o = ip.resolve(o)
+        if isinstance(o, Sym) and o.t.sort() == Val:       # statically untyped (e.g. a value taken out of a JSON-like dict): fork over its run-time class
+            o = ip.resolve_untyped(o)
     if isinstance(k, Sym):
         k = c.concretise(k)
     if o is None:
